@@ -313,14 +313,6 @@ func (dn *dirNode) addChild(name string, child node) {
 	dn.children[name] = child
 }
 
-// hasChildren reports whether the directory is not empty.
-func (dn *dirNode) hasChildren() bool {
-	dn.mu.RLock()
-	defer dn.mu.RUnlock()
-
-	return len(dn.children) != 0
-}
-
 // removeChild removes the child from the parent dirNode.
 func (dn *dirNode) removeChild(name string) {
 	delete(dn.children, name)
